@@ -814,7 +814,7 @@ func (x *runner) runNative(b *nativeBase) {
 	for _, a := range sigAlgebra(rr, ss) {
 		v := recid
 		if a.flipParity {
-			v = 27 + (recid-27)^1
+			v = 27 + ((recid - 27) ^ 1) // 27 <-> 28 (binary ^ has the precedence of +)
 		}
 		c := clone(tx)
 		c.Sign = common.BytesToSign(sig65(a.r, a.s, v))
